@@ -259,6 +259,47 @@ def _load():
     return json.load(open(os.path.join(OUT, "mutants.json")))["mutants"]
 
 
+def cmd_regen_files(args):
+    """Mutants are keyed (file, operator, k-th candidate): when a file changes (a fix commit) its keys point at other statements.
+    Re-enumerate the candidates of the given files with the operators already present in this sweep; the new mutants get fresh
+    ids, the old ones (and their verdicts / suite results / triage) are dropped.  Then: checks --missing; tests; report."""
+    files = [a for a in args if a.endswith(".py")]
+    meta = json.load(open(os.path.join(OUT, "mutants.json")))
+    muts = meta["mutants"]
+    ops = sorted({m["op"] for m in muts})
+    old = [m for m in muts if m["file"] in files]
+    keep = [m for m in muts if m["file"] not in files]
+    nxt = max(m["id"] for m in muts) + 1
+    new = []
+    for rel in files:
+        tree = ast.parse(open(os.path.join(REPO, rel)).read())
+        seen = set()
+        for op, idx, extra, ln, desc in candidates(tree):
+            if op not in ops or (op == "SWAP" and extra[0] == "handler"):
+                continue
+            key = (op, idx, json.dumps(extra))
+            if key in seen:
+                continue
+            seen.add(key)
+            new.append({"file": rel, "op": op, "idx": idx, "extra": extra, "line": ln, "desc": desc})
+    new.sort(key=lambda m: (m["file"], m["line"], m["op"], m["idx"]))
+    for m in new:
+        m["id"] = nxt
+        nxt += 1
+    meta["mutants"] = keep + new
+    meta.setdefault("regenerated", []).append({"files": files, "head": subprocess.run(["git", "-C", REPO, "rev-parse", "HEAD"], capture_output=True, text=True).stdout.strip(),
+                                               "dropped": len(old), "added": len(new)})
+    json.dump(meta, open(os.path.join(OUT, "mutants.json"), "w"), indent=0)
+    gone = {str(m["id"]) for m in old}
+    for nm in ("checks.json", "tests.json", "triage.json"):
+        pth = os.path.join(OUT, nm)
+        if os.path.exists(pth):
+            d = json.load(open(pth))
+            d = {k: v for k, v in d.items() if k not in gone}
+            json.dump(d, open(pth, "w"), indent=0)
+    print("dropped", len(old), "added", len(new))
+
+
 def _mutated(m):
     src = open(os.path.join(REPO, m["file"])).read()
     return src, apply(src, m["op"], m["idx"], tuple(m["extra"]) if isinstance(m["extra"], list) else m["extra"])
@@ -340,6 +381,10 @@ def cmd_checks(args):
         want = lambda r: r.get("status") == "ok" and ((r["errors"] and "--redo-errors" in args) or (not r["fired"] and "--redo-silent" in args))
         muts = [m for m in muts if want(prev.get(str(m["id"]), {}))]
         print("re-running", len(muts), "mutants", flush=True)
+    elif "--missing" in args:
+        prev = json.load(open(os.path.join(OUT, "checks.json")))
+        muts = [m for m in muts if str(m["id"]) not in prev]
+        print("running", len(muts), "mutants without a verdict", flush=True)
     pool = _Pool("pkg")
 
     def one(m):
@@ -525,4 +570,4 @@ def cmd_show(args):
 
 if __name__ == "__main__":
     cmd = sys.argv[1] if len(sys.argv) > 1 else "report"
-    {"gen": cmd_gen, "checks": cmd_checks, "tests": cmd_tests, "report": cmd_report, "show": cmd_show}[cmd](sys.argv[2:])
+    {"gen": cmd_gen, "regen-files": cmd_regen_files, "checks": cmd_checks, "tests": cmd_tests, "report": cmd_report, "show": cmd_show}[cmd](sys.argv[2:])
